@@ -16,18 +16,6 @@ dropped by functions.  C12 is claimed at the level of this lemma plus the engine
 namespace Pint.Props.C12
 open Pint.LabelFlow Pint.Props.C04
 
-/-- port of `canJoin` (after fix d2925e0): `on` = vm.On, `m` = vm.MatchingLabels -/
-def canJoin (on : Bool) (m : LS) (ls rs : Src) : Bool :=
-  if on then
-    if m.isEmpty then true
-    else m.all fun n => !(canHave ls n && !canHave rs n)
-  else
-    ls.guar.all fun n => m.contains n || !(canHave ls n && !canHave rs n)
-
-/-- the label names that take part in the matching -/
-def signature (on : Bool) (m : LS) (a : LS) : LS :=
-  if on then a.filter m.contains else a.filter fun n => !m.contains n && n != nameL
-
 def sameNames (a b : LS) : Prop := ∀ n, n ∈ a ↔ n ∈ b
 
 /-- what the analyser assumes about a left-hand series `a`: labels it says the source can have are there, as far as the
@@ -331,5 +319,258 @@ example :
     frag12 e1 = true ∧ (analyse e1).length = 1 ∧ (analyse e2).length = 1 ∧
     (match analyse e1, analyse e2 with | [a], [b] => canJoin true ["job"] a b | _, _ => true) = false ∧
     (full ["job", "instance"] e1).length = 1 := by decide
+
+/-! ## the reporting structure: which operation raised a flag, and what it returns then -/
+
+theorem neverMatched_length : ∀ e : Expr, (neverMatched e).length = (analyse e).length := by
+  intro e
+  induction e with
+  | sel ms => simp [neverMatched, analyse]
+  | aggBy g e ih => simpa [neverMatched, analyse] using ih
+  | aggWithout g e ih => simpa [neverMatched, analyse] using ih
+  | topk e ih => simpa [neverMatched, analyse] using ih
+  | countValuesBy g v e ih => simpa [neverMatched, analyse] using ih
+  | func e ih => simpa [neverMatched, analyse] using ih
+  | labelReplace d e ih => simpa [neverMatched, analyse] using ih
+  | absent ms => simp [neverMatched, analyse]
+  | vec => simp [neverMatched, analyse]
+  | binOn m l r ihl _ => simp [neverMatched, analyse, ihl]
+  | binIgn m l r ihl _ => simp [neverMatched, analyse, ihl]
+  | groupLeft o m i l r ihl _ => simp [neverMatched, analyse, ihl]
+  | groupRight o m i l r _ ihr => simp [neverMatched, analyse, ihr]
+  | setAnd o m l r ihl _ => simp [neverMatched, analyse, ihl]
+  | setOr o m l r ihl ihr => simp [neverMatched, analyse, ihl, ihr]
+  | withScalar e ih => simpa [neverMatched, analyse] using ih
+
+/-- a flag count above what the other side brought along means `canJoin` rejected one of its sources -/
+theorem joinFlags_pos (on : Bool) (m : LS) (s : Src) : ∀ (rs : List Src) (cs : List Nat),
+    cs.sum < joinFlags on m s rs cs → ∃ r ∈ rs, canJoin on m s r = false := by
+  intro rs
+  induction rs with
+  | nil => intro cs h; cases cs <;> simp [joinFlags] at h
+  | cons r rs ih =>
+    intro cs h
+    cases cs with
+    | nil => simp [joinFlags] at h
+    | cons c cs =>
+      simp only [joinFlags, List.sum_cons] at h
+      by_cases hc : canJoin on m s r = true
+      · simp only [hc, if_true] at h
+        obtain ⟨r', hr', hj⟩ := ih cs (by omega)
+        exact ⟨r', List.mem_cons_of_mem _ hr', hj⟩
+      · exact ⟨r, List.mem_cons_self, by simpa using hc⟩
+
+/-- the flags an operation adds are all there is when nothing was flagged below it: with one source on the other side,
+"a flag was raised here" is exactly "`canJoin` said no" -/
+theorem joinFlags_single (on : Bool) (m : LS) (s r : Src) :
+    joinFlags on m s [r] [0] = if canJoin on m s r then 0 else 1 := by
+  simp [joinFlags]
+
+theorem sigEq_of_sameNames_false {on : Bool} {m a b : LS} (h : ¬ sameNames (signature on m a) (signature on m b)) :
+    sigEq on m a b = false := by
+  cases hs : sigEq on m a b with
+  | false => rfl
+  | true =>
+    exfalso; apply h
+    simp only [sigEq, Bool.and_eq_true, List.all_eq_true, List.contains_iff_mem] at hs
+    intro n
+    exact ⟨fun hn => by simpa using hs.1 n hn, fun hn => by simpa using hs.2 n hn⟩
+
+theorem joined_nil {U : LS} {on : Bool} {m : LS} {l r : Expr}
+    (h : ∀ a ∈ full U l, ∀ b ∈ possible U r, ¬ sameNames (signature on m a) (signature on m b)) :
+    joined U on m l r = [] := by
+  simp only [joined, List.filter_eq_nil_iff, List.any_eq_true, not_exists, not_and, Bool.not_eq_true]
+  intro a ha b hb
+  exact sigEq_of_sameNames_false (h a ha b hb)
+
+/-- the source `parseBinOps` hands to `canJoin` is the transformed one; what it can have among the matching labels the
+untransformed one could have too -/
+theorem canHave_binOnSrc_inv {s : Src} {m : LS} {n : String}
+    (hc : CanHave (restrictTo { includeMatching s m with fixed := true } m) n) : n ∈ m ∧ CanHave s n := by
+  simp only [CanHave, restrictTo, List.mem_filter] at hc
+  obtain ⟨hex, hin⟩ := hc
+  rcases hin with h1 | h1 | h1
+  · exact ⟨by simpa using h1.2, canHave_includeMatching_inv m ⟨hex, Or.inl h1.1⟩⟩
+  · exact ⟨by simpa using h1.2, canHave_includeMatching_inv m ⟨hex, Or.inr (Or.inl h1.1)⟩⟩
+  · simp at h1
+
+theorem canJoin_on_false_elim {m : LS} {s r : Src} (hc : canJoin true m s r = false) :
+    ∃ n ∈ m, canHave s n = true ∧ canHave r n = false := by
+  simp only [canJoin, if_true] at hc
+  by_cases he : m.isEmpty = true
+  · simp [he] at hc
+  · simp only [he] at hc
+    obtain ⟨n, hn, hp⟩ := List.all_eq_false.mp hc
+    have hp' : (canHave s n && !canHave r n) = true := by simpa using hp
+    simp only [Bool.and_eq_true, Bool.not_eq_true'] at hp'
+    exact ⟨n, hn, hp'.1, hp'.2⟩
+
+theorem canJoin_on_false_intro {m : LS} {s r : Src} {n : String} (hn : n ∈ m) (h1 : canHave s n = true)
+    (h2 : canHave r n = false) : canJoin true m s r = false := by
+  simp only [canJoin, if_true]
+  have he : m.isEmpty = false := by cases m with | nil => simp at hn | cons _ _ => rfl
+  simp only [he, Bool.false_eq_true, if_false]
+  apply List.all_eq_false.mpr
+  exact ⟨n, hn, by simp [h1, h2]⟩
+
+/-- the verdict about the transformed left source of `l op on(m) r` is a verdict about the source of `l` -/
+theorem canJoin_binOn_transfer {m : LS} {s r : Src}
+    (hc : canJoin true m (restrictTo { includeMatching s m with fixed := true } m) r = false) :
+    canJoin true m s r = false := by
+  obtain ⟨n, hn, h1, h2⟩ := canJoin_on_false_elim hc
+  exact canJoin_on_false_intro hn ((canHave_iff s n).mpr (canHave_binOnSrc_inv ((canHave_iff _ n).mp h1)).2) h2
+
+/-- the same for `and on(m)` / `unless on(m)`, where the left source only gets the matching labels included -/
+theorem canJoin_setOn_transfer {m : LS} {s r : Src}
+    (hc : canJoin true m (includeMatching s m) r = false) : canJoin true m s r = false := by
+  obtain ⟨n, hn, h1, h2⟩ := canJoin_on_false_elim hc
+  exact canJoin_on_false_intro hn ((canHave_iff s n).mpr (canHave_includeMatching_inv m ((canHave_iff _ n).mp h1))) h2
+
+/-- **C12, `on(...)` joins with any number of right-hand branches**: if `canJoin` rejects *every* source of the right
+operand, no series of the left operand finds a partner (the case of one source is `C12_on_join_never_matches`; with
+several sources - `or` on the right - pint reports each rejected branch on its own, which is the recorded finding
+`C12-never-matched-per-branch`: the theorem needs all of them rejected). -/
+theorem C12_on_all_branches_rejected (U m : LS) (e1 e2 : Expr) (hf1 : frag12 e1 = true) (hw2 : wf e2 = true)
+    (s1 : Src) (h1 : analyse e1 = [s1])
+    (hm : ∀ n ∈ m, n ∈ U ∧ n ≠ nameL) (hc : ∀ s2 ∈ analyse e2, canJoin true m s1 s2 = false) :
+    ∀ a ∈ full U e1, ∀ b ∈ possible U e2, ¬ sameNames (signature true m a) (signature true m b) := by
+  intro a ha b hb
+  obtain ⟨s, hs, hacc⟩ := analyse_sound U e2 hw2 b hb
+  refine canJoin_false_no_match true m s1 s a b (hc s hs) ?_ hacc (by simp)
+  intro n hcn hcond
+  have hnm : n ∈ m := by simpa using hcond
+  exact must_have U e1 hf1 s1 h1 a ha n (hm n hnm).1 (hm n hnm).2 hcn
+
+/-- **C12, joins without `on`** (`ignoring(m)`, or no modifier: `m = []`): `canJoin` then looks at the labels the left
+source guarantees.  Under the data hypothesis (the guaranteed labels are labels of the universe - they come from the
+matchers the query spells out) a rejected right operand is never matched. -/
+theorem C12_ignoring_all_branches_rejected (U m : LS) (e1 e2 : Expr) (hf1 : frag12 e1 = true) (hw2 : wf e2 = true)
+    (s1 : Src) (h1 : analyse e1 = [s1])
+    (hg : ∀ n ∈ s1.guar, n ∈ U ∧ n ≠ nameL) (hc : ∀ s2 ∈ analyse e2, canJoin false m s1 s2 = false) :
+    ∀ a ∈ full U e1, ∀ b ∈ possible U e2, ¬ sameNames (signature false m a) (signature false m b) := by
+  intro a ha b hb
+  obtain ⟨s, hs, hacc⟩ := analyse_sound U e2 hw2 b hb
+  refine canJoin_false_no_match false m s1 s a b (hc s hs) ?_ hacc (fun _ hn => (hg _ hn).2 rfl)
+  intro n hcn hcond
+  simp only [Bool.false_eq_true, if_false] at hcond
+  exact must_have U e1 hf1 s1 h1 a ha n (hg n hcond.1).1 (hg n hcond.1).2 hcn
+
+theorem canJoin_ign_false_elim {m : LS} {s r : Src} (hc : canJoin false m s r = false) :
+    ∃ n ∈ s.guar, n ∉ m ∧ canHave s n = true ∧ canHave r n = false := by
+  simp only [canJoin, Bool.false_eq_true, if_false] at hc
+  obtain ⟨n, hng, hp⟩ := List.all_eq_false.mp hc
+  simp only [Bool.or_eq_true, Bool.not_eq_true', not_or, Bool.not_eq_true, Bool.and_eq_false_imp] at hp
+  have hcl : canHave s n = true := by
+    cases h : canHave s n with
+    | true => rfl
+    | false => simp [h] at hp
+  have hcr : canHave r n = false := by
+    cases h : canHave r n with
+    | false => rfl
+    | true => simp [hcl, h] at hp
+  exact ⟨n, hng, by simpa using hp.1, hcl, hcr⟩
+
+theorem canJoin_ign_false_intro {m : LS} {s r : Src} {n : String} (hg : n ∈ s.guar) (hn : n ∉ m)
+    (h1 : canHave s n = true) (h2 : canHave r n = false) : canJoin false m s r = false := by
+  simp only [canJoin, Bool.false_eq_true, if_false]
+  apply List.all_eq_false.mpr
+  exact ⟨n, hg, by simp [hn, h1, h2]⟩
+
+/-- the verdict about the transformed left source of `l op ignoring(m) r` is a verdict about the source of `l` -/
+theorem canJoin_binIgn_transfer {m : LS} {s r : Src}
+    (hc : canJoin false m (excludeLabel s m) r = false) : canJoin false m s r = false := by
+  obtain ⟨n, hg, hn, h1, h2⟩ := canJoin_ign_false_elim hc
+  have hg' : n ∈ s.guar := by
+    simp only [excludeLabel, mem_removeFrom] at hg
+    exact hg.1
+  exact canJoin_ign_false_intro hg' hn ((canHave_iff s n).mpr (canHave_excludeLabel_inv ((canHave_iff _ n).mp h1)).2) h2
+
+/-- **C12, the report**: `l op on(m) r` (arithmetic or comparison, one-to-one).  If the operation raises a "never
+matched" flag that was not already there below it (`neverMatched` of the node exceeds what both operands brought
+along) and the right operand has one source, the operation returns no series on any database whose series carry every
+label of `U`. -/
+theorem C12_report_on (U m : LS) (l r : Expr) (hf : frag12 l = true) (hw : wf r = true)
+    (s1 s2 : Src) (h1 : analyse l = [s1]) (h2 : analyse r = [s2])
+    (hm : ∀ n ∈ m, n ∈ U ∧ n ≠ nameL)
+    (hflag : (neverMatched l).sum + (neverMatched r).sum < (neverMatched (.binOn m l r)).sum) :
+    joined U true m l r = [] := by
+  have hl1 : (neverMatched l).length = 1 := by rw [neverMatched_length, h1]; rfl
+  have hr1 : (neverMatched r).length = 1 := by rw [neverMatched_length, h2]; rfl
+  obtain ⟨c1, hc1⟩ : ∃ c, neverMatched l = [c] := by
+    match hx : neverMatched l, hl1 with
+    | [c], _ => exact ⟨c, rfl⟩
+  obtain ⟨c2, hc2⟩ : ∃ c, neverMatched r = [c] := by
+    match hx : neverMatched r, hr1 with
+    | [c], _ => exact ⟨c, rfl⟩
+  simp only [neverMatched, analyse, h1, h2, hc1, hc2, List.map_cons, List.map_nil, List.zipWith_cons_cons,
+    List.zipWith_nil_right, List.sum_cons, List.sum_nil, joinFlags] at hflag
+  have hcj : canJoin true m (restrictTo { includeMatching s1 m with fixed := true } m) s2 = false := by
+    cases h : canJoin true m (restrictTo { includeMatching s1 m with fixed := true } m) s2 with
+    | false => rfl
+    | true => simp [h] at hflag
+  apply joined_nil
+  exact C12_on_join_never_matches U m l r hf hw s1 s2 h1 h2 hm (canJoin_binOn_transfer hcj)
+
+/-- **C12, the report** for `l op ignoring(m) r` and `l op r` (`m = []`) -/
+theorem C12_report_ignoring (U m : LS) (l r : Expr) (hf : frag12 l = true) (hw : wf r = true)
+    (s1 s2 : Src) (h1 : analyse l = [s1]) (h2 : analyse r = [s2])
+    (hg : ∀ n ∈ s1.guar, n ∈ U ∧ n ≠ nameL)
+    (hflag : (neverMatched l).sum + (neverMatched r).sum < (neverMatched (.binIgn m l r)).sum) :
+    joined U false m l r = [] := by
+  have hl1 : (neverMatched l).length = 1 := by rw [neverMatched_length, h1]; rfl
+  have hr1 : (neverMatched r).length = 1 := by rw [neverMatched_length, h2]; rfl
+  obtain ⟨c1, hc1⟩ : ∃ c, neverMatched l = [c] := by
+    match hx : neverMatched l, hl1 with
+    | [c], _ => exact ⟨c, rfl⟩
+  obtain ⟨c2, hc2⟩ : ∃ c, neverMatched r = [c] := by
+    match hx : neverMatched r, hr1 with
+    | [c], _ => exact ⟨c, rfl⟩
+  simp only [neverMatched, analyse, h1, h2, hc1, hc2, List.map_cons, List.map_nil, List.zipWith_cons_cons,
+    List.zipWith_nil_right, List.sum_cons, List.sum_nil, joinFlags] at hflag
+  have hcj : canJoin false m (excludeLabel s1 m) s2 = false := by
+    cases h : canJoin false m (excludeLabel s1 m) s2 with
+    | false => rfl
+    | true => simp [h] at hflag
+  apply joined_nil
+  apply C12_ignoring_all_branches_rejected U m l r hf hw s1 h1 hg
+  intro s hs
+  rw [h2] at hs
+  have : s = s2 := by simpa using hs
+  subst this
+  exact canJoin_binIgn_transfer hcj
+
+/-- **C12, the report** for `l and on(m) r` (and, read as "the right side changes nothing", `l unless on(m) r`) -/
+theorem C12_report_and_on (U m : LS) (l r : Expr) (hf : frag12 l = true) (hw : wf r = true)
+    (s1 s2 : Src) (h1 : analyse l = [s1]) (h2 : analyse r = [s2])
+    (hm : ∀ n ∈ m, n ∈ U ∧ n ≠ nameL)
+    (hflag : (neverMatched l).sum + (neverMatched r).sum < (neverMatched (.setAnd true m l r)).sum) :
+    joined U true m l r = [] := by
+  have hl1 : (neverMatched l).length = 1 := by rw [neverMatched_length, h1]; rfl
+  have hr1 : (neverMatched r).length = 1 := by rw [neverMatched_length, h2]; rfl
+  obtain ⟨c1, hc1⟩ : ∃ c, neverMatched l = [c] := by
+    match hx : neverMatched l, hl1 with
+    | [c], _ => exact ⟨c, rfl⟩
+  obtain ⟨c2, hc2⟩ : ∃ c, neverMatched r = [c] := by
+    match hx : neverMatched r, hr1 with
+    | [c], _ => exact ⟨c, rfl⟩
+  simp only [neverMatched, analyse, h1, h2, hc1, hc2, List.map_cons, List.map_nil, List.zipWith_cons_cons,
+    List.zipWith_nil_right, List.sum_cons, List.sum_nil, joinFlags, if_true] at hflag
+  have hcj : canJoin true m (includeMatching s1 m) s2 = false := by
+    cases h : canJoin true m (includeMatching s1 m) s2 with
+    | false => rfl
+    | true => simp [h] at hflag
+  apply joined_nil
+  exact C12_on_join_never_matches U m l r hf hw s1 s2 h1 h2 hm (canJoin_setOn_transfer hcj)
+
+/-- non-vacuity of the report theorems: `m1{job="x"} * on(job) sum by (instance) (m2)` raises one flag at the top
+operation and none below; `m1{job="x"} * sum by (instance) (m2)` too (the guaranteed label `job`); and a query where
+nothing is flagged -/
+example :
+    let l := Expr.sel [{ label := "job", kind := .eq }]
+    let r := Expr.aggBy ["instance"] (.sel [])
+    neverMatched l = [0] ∧ neverMatched r = [0] ∧ neverMatched (.binOn ["job"] l r) = [1] ∧
+    neverMatched (.binIgn [] l r) = [1] ∧ neverMatched (.setAnd true ["job"] l r) = [1] ∧
+    neverMatched (.binOn ["instance"] l r) = [0] ∧
+    joined ["job", "instance"] true ["job"] l r = [] ∧ joined ["job", "instance"] true ["instance"] l r ≠ [] := by decide
 
 end Pint.Props.C12
